@@ -1061,6 +1061,35 @@ def rule_version_next(ctx, R):
             bad = [e for e in ps[0].effects if e[0] == "call" and (cname(e[2]).endswith("expect") or "unchecked" in cname(e[2]) or "panic" in e[2])]
             R.check(not bad, "C19-R5", key + "|wrapping-ub-free", "wrapping next() has neither a panic nor an unchecked operation",
                     "wrapping next() calls %s" % [cname(e[2]) for e in bad], where_of(fn), fn=fn.key)
+    # C19-R8: the successor of a generation is computed the same way in every build profile.  A bare `+` / `-` / `*` on the way
+    # panics at the boundary with -C overflow-checks (debug) and wraps silently without (release): whether the documented overflow
+    # panic happens would then depend on the profile, not on the wrapping_version feature.  Arithmetic on generations has to go
+    # through the explicit checked_* / wrapping_* / saturating_* methods (calls, identical in every profile).
+    ARITH = ("Add", "Sub", "Mul", "AddWithOverflow", "SubWithOverflow", "MulWithOverflow", "AddUnchecked", "SubUnchecked", "MulUnchecked", "Shl", "ShlUnchecked")
+    for ty in ("SlotVersion", "ArchetypeVersion"):
+        fn = ctx.gecs.fns.get("version::%s::next" % ty)
+        if fn is None:
+            continue
+        seen, st, raw = set(), [fn], []
+        while st:
+            h = st.pop()
+            if h.key in seen:
+                continue
+            seen.add(h.key)
+            for b in h.blocks:
+                for s_ in b["st"]:
+                    if s_["k"] == "assign" and s_["rv"]["k"] == "bin" and s_["rv"]["op"] in ARITH:
+                        raw.append((h, s_))
+                t = b["t"]
+                if t["k"] == "assert" and "verflow" in str(t.get("msg")):
+                    raw.append((h, t))
+                if t["k"] == "call" and not t["f"].get("indirect"):
+                    c = ctx.gecs.lookup(t["f"])
+                    if c is not None and len(seen) < 12:
+                        st.append(c)
+        R.check(not raw, "C19-R8", "%s::next|profile-independent-arith" % ty, "no bare arithmetic on the way to the successor generation (%d gecs function(s) scanned)" % len(seen),
+                "the successor generation is computed with a bare arithmetic operator in %s: at the boundary it panics only with -C overflow-checks (debug) and wraps silently in release, so the build profile decides whether the documented overflow panic happens" % (raw[0][0].path if raw else ""),
+                where_of(raw[0][0], raw[0][1].get("s")) if raw else None, fn=fn.key)
     vs = ctx.gecs.consts.get("version::VERSION_START")
     if vs is None:
         R.anchor_missing("version::VERSION_START")
